@@ -43,6 +43,38 @@ class Obj:
         return f"{self.cls_name}({inner})"
 
 
+class NT(tuple):
+    """Instance of a repository ``typing.NamedTuple`` class: a real tuple (indexing, unpacking, equality with plain
+    tuples, iteration work natively) that also knows its class (field names, methods)."""
+
+    def __new__(cls, cref, values):
+        o = tuple.__new__(cls, values)
+        o.cref = cref
+        o.names = [f[0] for f in cref.struct_fields()]
+        return o
+
+    @property
+    def tag(self):
+        return f"{self.cref.name}{tuple(self)!r}"
+
+    def __repr__(self):
+        return f"{self.cref.name}({', '.join(f'{n}={v!r}' for n, v in zip(self.names, self))})"
+
+
+class Iter:
+    """A live iterator inside one explored path (paths are re-executed from scratch, so sharing real iterator state
+    within a path is exact): wraps a Python iterator that yields explorer values."""
+
+    def __init__(self, it, label="iter"):
+        self.it, self.label = it, label
+
+    def __iter__(self):
+        return self.it
+
+    def __repr__(self):
+        return f"<{self.label}>"
+
+
 class Closure:
     def __init__(self, node, frame, name=None):
         self.node, self.frame = node, frame
